@@ -581,6 +581,20 @@ def run_scenario(pane, sc, bound, res, only_prefix=None):
         res['errors'].append(f"scenario {sc}: default schedule not reproducible")
         return []
     ex.explore()
+    if ex.capped and bound > 0:
+        # iterative context bounding: the cap was reached at this bound, so finish the bound below it completely and
+        # say so (the capped exploration above still counts for violations, not for the coverage claim)
+        ex_lo = sched.Explorer(make, watched, bound - 1, max_schedules=10 ** 9)
+        ex_lo.explore()
+        res['extra'].setdefault('capped_scenarios', set()).add(
+            f"{sc}: bound {bound} capped after {ex.schedules} schedules; bound {bound - 1} complete with {ex_lo.schedules}")
+        res['extra']['schedules_below_cap_bound'] = res['extra'].get('schedules_below_cap_bound', 0) + ex_lo.schedules
+        for v in ex_lo.violations:
+            if v not in ex.violations:
+                ex.violations.append(v)
+    else:
+        k = f'scenarios_complete_at_preemption_bound_{bound}'
+        res['extra'][k] = res['extra'].get(k, 0) + 1
     res['states'] += ex.schedules
     res['evals'] += ex.schedules
     res['validated'] += ex.schedules
